@@ -117,6 +117,7 @@ class Registry:
         self.const_overrides: Dict[Tuple[str, str], Any] = {}
         self.natives: Dict[str, Any] = {}  # native implementations of ufuns / overrides of spec macros
         self.native_factories: Dict[str, Any] = {}
+        self.opaque_classes: Dict[Tuple[str, str], str] = {}  # (module, class) -> opaque sort its constructor yields
         self.ufuns: Dict[str, str] = {}  # uninterpreted spec functions: name -> result sort text  # (name, reason) — listed in evidence as assumptions
 
     def contract(self, module, func, **kw) -> Contract:
